@@ -18,9 +18,10 @@ From ApiFu Require Import Base.Sexp ExeA.ArgData ExeA.ArgArgs.
 From ApiFu Require Val.Values Val.CoerceModel.
 Import ListNotations.
 
-Record mode := { fix1 : bool; fix7 : bool; memo : bool }.
-Definition fixed : mode := {| fix1 := true; fix7 := true; memo := true |}.
-Definition fixed_nomemo : mode := {| fix1 := true; fix7 := true; memo := false |}.
+Record mode := { fix1 : bool; fix7 : bool; memo : bool;
+                 fixd : bool }.   (* a directive's coercion error is reported once per operation *)
+Definition fixed : mode := {| fix1 := true; fix7 := true; memo := true; fixd := true |}.
+Definition fixed_nomemo : mode := {| fix1 := true; fix7 := true; memo := false; fixd := true |}.
 
 (** ** grouped_field_set.go *)
 Record group := { g_key : name; g_first : fnode; g_more : list fnode }.          (* Fields is never empty *)
@@ -213,6 +214,11 @@ Definition add_err (e : gerror) (st : state) : state :=
   {| st_errs := st_errs st ++ [e]; st_cache := st_cache st |}.
 Definition add_errs (es : list gerror) (st : state) : state :=
   {| st_errs := st_errs st ++ es; st_cache := st_cache st |}.
+(** the errors of the directives met by one traversal of collectFieldsImpl: with the repair
+    ([once]) a directive node that is already reported (executor.reportedDirectives; here: its
+    error — no path, the node's own location — is already in Errors) is not reported again *)
+Definition report_errs (once : bool) (es : list gerror) (st : state) : state :=
+  fold_left (fun s e => if once && existsb (gerror_eqb e) (st_errs s) then s else add_err e s) es st.
 
 Inductive res (A : Type) := ROk (a : A) | RErr (e : gerror) | RPanic | ROutOfFuel.
 Arguments ROk {A} a.
@@ -261,7 +267,7 @@ Section Exec.
       | None =>
           match collect_impl S D E fuel ot sels [] [] with
           | COk _ g =>
-              let st' := add_errs (snd (collect_errs S D E fuel ot sels [])) st in
+              let st' := report_errs (fixd M) (snd (collect_errs S D E fuel ot sels [])) st in
               (CFOk g, {| st_errs := st_errs st'; st_cache := (key, g) :: st_cache st' |})
           | CPanic => (CFPanic, st)
           | COutOfFuel => (CFOutOfFuel, st)
@@ -269,7 +275,7 @@ Section Exec.
       end
     else
       match collect_impl S D E fuel ot sels [] [] with
-      | COk _ g => (CFOk g, add_errs (snd (collect_errs S D E fuel ot sels [])) st)
+      | COk _ g => (CFOk g, report_errs (fixd M) (snd (collect_errs S D E fuel ot sels [])) st)
       | CPanic => (CFPanic, st)
       | COutOfFuel => (CFOutOfFuel, st)
       end.
